@@ -113,6 +113,10 @@ def run_case(acc, data, cfg, how, dkey, family, lazy=None):
     refused = False
     methods = [c.environ.get("REQUEST_METHOD") for c in res.calls] + [None, None]
     resps, werr, _left = rs.parse_responses(res.wire, methods, eof=res.closed)
+    if werr is not None:
+        r2 = rs.parse_responses(res.wire, methods[:-2] + ["HEAD", None], eof=res.closed)
+        if r2[1] is None:
+            resps, werr, _left = r2
     errs = [r for r in resps if r["status"] in oracle.ERR_STATUSES]
     if errs:
         refused = True
